@@ -18,7 +18,7 @@ from lib.vlib import cq_list, cq_bool
 
 SETUP_BUILDS = [{"name": "c07"}]
 COQ_TARGETS = ["Slots/Properties_C07.v", "Slots/Corr.v"]
-HEADER = ("From Coq Require Import List ZArith NArith Bool.\nFrom V Require Import Common.Bytes Runner.Stop Slots.Model Slots.Corr.\n"
+HEADER = ("From Coq Require Import List ZArith NArith Bool.\nFrom V Require Import Common.Bytes Slots.StopFns Slots.Model Slots.Corr.\n"
           "Import ListNotations.\nOpen Scope Z_scope.\n")
 
 
